@@ -38,6 +38,7 @@ class DLoop(vloop.VLoop):
         self._seqmap = {}
 
     def call_at(self, when, callback, *args, context=None):
+        when = round(when * 1000) / 1000.0     # virtual time is integer milliseconds (no float noise in ties)
         h = super().call_at(when, callback, *args, context=context)
         self._seqmap[id(h)] = next(self._seq)
         return h
